@@ -17,6 +17,7 @@ import (
 	"pgregory.net/rapid"
 
 	gnet "github.com/panjf2000/gnet/v2"
+	"github.com/panjf2000/gnet/v2/internal/vshim"
 	errorx "github.com/panjf2000/gnet/v2/pkg/errors"
 	"github.com/panjf2000/gnet/v2/verifx/fx"
 	"github.com/panjf2000/gnet/v2/verifx/vstat"
@@ -40,7 +41,7 @@ func (c caseSpec) String() string {
 	return fmt.Sprintf("cfg: %s\n before=%v running=%v conns=%d slowClose=%v stop=%s/%s during=%v after=%v", c.Cfg, c.Before, c.Running, c.Conns, c.SlowClose, c.StopKind, c.ShutAt, c.During, c.After)
 }
 
-var allCalls = []string{"validate", "count", "dup", "duplistener", "duplistener-wrong", "register-conn", "register-closedconn", "register-addr", "register-badaddr", "register-none",
+var allCalls = []string{"validate", "count", "dup", "duplistener", "duplistener-wrong", "register-conn", "register-closedconn", "register-addr", "register-addr-addfail", "register-badaddr", "register-none",
 	"loop-register-nil", "loop-enroll-nil", "loop-execute-nil", "loop-execute", "loop-register", "loop-enroll", "stop-expired-noop"}
 
 // ---- connection state -------------------------------------------------------------------------
@@ -75,6 +76,7 @@ func (c *cstate) OnClose(gc gnet.Conn, err error) gnet.Action {
 }
 
 type session struct {
+	plan           *vshim.Plan // fault shim (failing registrations)
 	cs             caseSpec
 	e              *fx.Engine
 	eng            gnet.Engine
@@ -285,7 +287,7 @@ func (s *session) do(call string, h gnet.Engine) {
 		if err == nil {
 			unix.Close(fd)
 		}
-	case "register-conn", "register-closedconn", "register-addr", "register-badaddr", "register-none":
+	case "register-conn", "register-closedconn", "register-addr", "register-addr-addfail", "register-badaddr", "register-none":
 		st := &cstate{s: s}
 		rctx := gnet.NewContext(ctx, fx.ConnHooks(st))
 		want := error(nil)
@@ -300,6 +302,13 @@ func (s *session) do(call string, h gnet.Engine) {
 			}
 			rctx = gnet.NewNetConnContext(rctx, nc)
 		case "register-addr":
+			rctx = gnet.NewNetAddrContext(rctx, tAddr)
+		case "register-addr-addfail":
+			// the loop's attempt to add the new descriptor to its poller fails: the call still owes its result
+			if s.plan != nil {
+				s.plan.AddFault(&vshim.Fault{Site: "(*Poller).AddRead/epoll_ctl_add", Fd: -1, K: 1, Errno: unix.ENOMEM})
+				s.plan.AddFault(&vshim.Fault{Site: "(*Poller).AddReadWrite/epoll_ctl_add", Fd: -1, K: 1, Errno: unix.ENOSPC})
+			}
 			rctx = gnet.NewNetAddrContext(rctx, tAddr)
 		case "register-badaddr":
 			rctx = gnet.NewNetAddrContext(rctx, &net.TCPAddr{IP: net.IPv4(127, 0, 0, 1), Port: 1})
@@ -389,7 +398,9 @@ func (s *session) do(call string, h gnet.Engine) {
 }
 
 func runCase(cs caseSpec) (fails []string, infra string) {
-	s := &session{cs: cs}
+	s := &session{cs: cs, plan: &vshim.Plan{}}
+	vshim.Install(s.plan)
+	defer vshim.Install(nil)
 	tl, err := net.Listen("tcp4", fx.Host("tcp4")+":0") // this process's own loop-back address: TIME_WAIT remnants do not pile up on one address
 	if err != nil {
 		return nil, err.Error()
